@@ -279,11 +279,20 @@ impl TxPool {
             .collect();
 
         for entry in removed {
-            let tx_hash = entry.transaction().hash();
-            debug!("remove_expired {} timestamp({})", tx_hash, entry.timestamp);
-            self.pool_map.remove_entry(&entry.proposal_short_id());
-            let reject = Reject::Expiry(entry.timestamp);
-            callbacks.call_reject(self, &entry, reject);
+            // the descendants of an expired transaction spend outputs that leave the pool with
+            // it: they go too (an entry may already be gone as a descendant of an earlier one)
+            let removed_entries = self
+                .pool_map
+                .remove_entry_and_descendants(&entry.proposal_short_id());
+            for removed_entry in removed_entries {
+                let tx_hash = removed_entry.transaction().hash();
+                debug!(
+                    "remove_expired {} timestamp({})",
+                    tx_hash, removed_entry.timestamp
+                );
+                let reject = Reject::Expiry(entry.timestamp);
+                callbacks.call_reject(self, &removed_entry, reject);
+            }
         }
     }
 
